@@ -35,6 +35,12 @@ func projection(v ssa.Value, isSlice func(ssa.Value) bool, depth int) (path stri
 	if depth > 8 {
 		return "", nil, false
 	}
+	// inside a named comparator less(a, b) the parameters are the two elements themselves
+	if elemRoot != nil {
+		if m := elemRoot(v); m != nil {
+			return "", m, true
+		}
+	}
 	switch x := v.(type) {
 	case *ssa.UnOp:
 		if x.Op != token.MUL {
@@ -85,6 +91,10 @@ func projection(v ssa.Value, isSlice func(ssa.Value) bool, depth int) (path stri
 	}
 	return "", nil, false
 }
+
+// elemRoot, when set, maps a value that *is* one of the two compared elements (a parameter of a named comparator)
+// to the index parameter it stands for.
+var elemRoot func(ssa.Value) ssa.Value
 
 // lessFunction resolves the comparator of a sorter call: the function, and a
 // predicate recognising the sorted slice inside it.
@@ -205,6 +215,22 @@ func CheckComparator(call *ssa.Call, uniqueProj func(elem types.Type, path strin
 		return ComparatorVerdict{Why: "sorted value is not a slice"}
 	}
 	pi, pj := fn.Params[len(fn.Params)-2], fn.Params[len(fn.Params)-1]
+	// a comparator that only forwards to a named function, less(s[i], s[j]): judge that function, with its two
+	// parameters standing for the elements
+	elemRoot = nil
+	defer func() { elemRoot = nil }()
+	if h, a, b := forwardedComparator(fn, isSlice, pi, pj); h != nil {
+		fn = h
+		elemRoot = func(v ssa.Value) ssa.Value {
+			switch v {
+			case ssa.Value(a):
+				return pi
+			case ssa.Value(b):
+				return pj
+			}
+			return nil
+		}
+	}
 	set := map[string]bool{}
 	opaque := 0
 	record := func(a, b ssa.Value) {
@@ -260,4 +286,92 @@ func CheckComparator(call *ssa.Call, uniqueProj func(elem types.Type, path strin
 	}
 	v.Why = fmt.Sprintf("the comparator compares {%s} (+%d comparisons of computed values); none of these is known to differ for every two distinct entries, so tied entries stay in map order", strings.Join(ps, ","), opaque)
 	return v
+}
+
+// forwardedComparator: the closure's result is the result of its only call to a function with a body, whose
+// arguments are the elements s[i] and s[j] (in either order); returns that function and its parameters for i and j.
+func forwardedComparator(fn *ssa.Function, isSlice func(ssa.Value) bool, pi, pj *ssa.Parameter) (*ssa.Function, *ssa.Parameter, *ssa.Parameter) {
+	var only *ssa.Call
+	for _, k := range Calls(fn) {
+		c, ok := k.(*ssa.Call)
+		if !ok {
+			continue
+		}
+		if _, isB := c.Call.Value.(*ssa.Builtin); isB {
+			continue
+		}
+		if only != nil {
+			return nil, nil, nil
+		}
+		only = c
+	}
+	if only == nil {
+		return nil, nil, nil
+	}
+	h := only.Call.StaticCallee()
+	if h == nil || h.Blocks == nil || h.Signature.Recv() != nil || len(h.Params) != 2 || len(only.Call.Args) != 2 {
+		return nil, nil, nil
+	}
+	for _, r := range Returns(fn) {
+		if len(r.Results) != 1 || r.Results[0] != ssa.Value(only) {
+			return nil, nil, nil
+		}
+	}
+	var pa, pb *ssa.Parameter
+	for n, arg := range only.Call.Args {
+		path, idx, ok := projection(arg, isSlice, 0)
+		if !ok || path != "" {
+			// the address of the element is as good as the element
+			if ia, isIA := arg.(*ssa.IndexAddr); isIA && isSlice(ia.X) {
+				idx, ok = ia.Index, true
+			} else {
+				return nil, nil, nil
+			}
+		}
+		switch idx {
+		case ssa.Value(pi):
+			pa = h.Params[n]
+		case ssa.Value(pj):
+			pb = h.Params[n]
+		}
+	}
+	if pa == nil || pb == nil {
+		return nil, nil, nil
+	}
+	return h, pa, pb
+}
+
+// ComparatorBody resolves the function that holds the comparisons of a sorter call - the comparator closure, its
+// Less method, or the named function the closure forwards to - and predicates that say whether a value is (a
+// projection of) the first or the second compared element.
+func ComparatorBody(call *ssa.Call) (fn *ssa.Function, ofI, ofJ func(v ssa.Value) bool) {
+	cl, isSlice, _ := lessFunction(call)
+	if cl == nil || cl.Blocks == nil || len(cl.Params) < 2 {
+		return nil, nil, nil
+	}
+	pi, pj := cl.Params[len(cl.Params)-2], cl.Params[len(cl.Params)-1]
+	fn = cl
+	var root func(ssa.Value) ssa.Value
+	if h, a, b := forwardedComparator(cl, isSlice, pi, pj); h != nil {
+		fn = h
+		root = func(v ssa.Value) ssa.Value {
+			switch v {
+			case ssa.Value(a):
+				return pi
+			case ssa.Value(b):
+				return pj
+			}
+			return nil
+		}
+	}
+	of := func(want *ssa.Parameter) func(ssa.Value) bool {
+		return func(v ssa.Value) bool {
+			saved := elemRoot
+			elemRoot = root
+			defer func() { elemRoot = saved }()
+			_, idx, ok := projection(v, isSlice, 0)
+			return ok && idx == ssa.Value(want)
+		}
+	}
+	return fn, of(pi), of(pj)
 }
